@@ -101,6 +101,9 @@ SPEC_CASES = [
     ("spec.escaped.multi_key.first", "('q',)", "{'value.equal_to': {'\\\\path': ['ref'], 'kind': 'file'}}", "Value.equal_to({'path': ['ref'], 'kind': 'file'})", []),
     ("spec.escaped.multi_key.in_kwargs", "('m2',)", "{'value.items_contain': {'k': {'kind': 'file', '\\\\path.length': ['ref']}}}", "Value.items_contain(k={'kind': 'file', 'path.length': ['ref']})", []),
     ("spec.root.length", "('n',)", "{'value.equal_to': {'path.length': []}}", "Value.equal_to(ref_get((), doc, 'length'))", []),
+    ("spec.root.map_keys", "('w',)", "{'value.in': {'path.map_keys': []}}", "Value.in_(ref_get((), doc, 'map_keys'))", []),
+    ("spec.root.in_list", "('n',)", "{'value.in': [{'path.length': []}, t]}", "Value.in_([ref_get((), doc, 'length'), t])", [("t", "int")]),
+    ("spec.root.in_kwargs", "('m',)", "{'value.items_contain': {'j': {'path': ['n']}, 'k': {'path.length': ()}}}", f"Value.items_contain(j={lit(P_N)}, k=ref_get((), doc, 'length'))", []),
     ("spec.escaped.nonstr_key_first", "('q2',)", "{'value.equal_to': {0: 'x', '\\path': ['ref']}}", "Value.equal_to({0: 'x', 'path': ['ref']})", []),
     ("spec.escaped.none_key_first", "('q3',)", "{'value.equal_to': {None: 1, '\\path.length': ['ref']}}", "Value.equal_to({None: 1, 'path.length': ['ref']})", []),
     ("spec.escaped.nonstr_key_first.miss", "('q4',)", "{'value.equal_to': {0: 'x', '\\path': ['ref']}}", "Value.equal_to({0: 'x', 'path': ['ref']})", []),
